@@ -58,6 +58,21 @@ func checkC16(c *Ctx, r *Report) {
 	r.NotDecided = []string{"completeness for every way a BMC may split records across chunks (needs a simulated BMC)", "deduplication against a BMC that repeats record IDs across pages (the library trusts instance-start paging)"}
 	r.Trusted = []string{"go/types, go/ssa (x/tools v0.29.0)", "bytes.Buffer.Write appends", "IPMI v2.0 §22.15.1 cipher suite record format; DCMI §6.5.2 paging"}
 
+	parser := checkChunkLoop(c, r)
+
+	// =============================== parser
+	if parser != nil {
+		checkCipherSuiteParser(c, r, parser)
+	}
+
+	// =============================== DCMI sensor info
+	checkDCMISensorInfo(c, r)
+}
+
+// checkChunkLoop decides the cipher-suite retrieval loop (shared with C05: it
+// is what bounds discovery against a BMC that keeps sending full chunks).
+// Returns the record parser.
+func checkChunkLoop(c *Ctx, r *Report) *ssa.Function {
 	// =============================== cipher suite retrieval loop
 	recT := c.Named("pkg/ipmi", "CipherSuiteRecord")
 	var retr, parser *ssa.Function
@@ -193,13 +208,7 @@ func checkC16(c *Ctx, r *Report) {
 		}
 	}
 
-	// =============================== parser
-	if parser != nil {
-		checkCipherSuiteParser(c, r, parser)
-	}
-
-	// =============================== DCMI sensor info
-	checkDCMISensorInfo(c, r)
+	return parser
 }
 
 func checkCipherSuiteParser(c *Ctx, r *Report, parser *ssa.Function) {
